@@ -67,6 +67,10 @@ pub fn corruptions(
         let mut c = clone_inst(h);
         c.vals[k] = rng.felt();
         out.push((format!("value[{k}]=rand"), c));
+        // a change confined to the bits above the digest width
+        let mut c = clone_inst(h);
+        c.vals[k] += vcommon::pow_u128(Felt::TWO, 200);
+        out.push((format!("value[{k}]+2^200"), c));
     }
     for k in 0..q.len() {
         // to the sibling (when not itself queried)
@@ -109,6 +113,9 @@ pub fn corruptions(
         let mut c = clone_inst(h);
         c.auth[k] = rng.felt();
         out.push((format!("auth[{k}]=rand"), c));
+        let mut c = clone_inst(h);
+        c.auth[k] += vcommon::pow_u128(Felt::TWO, if k % 2 == 0 { 200 } else { 249 });
+        out.push((format!("auth[{k}]+2^200"), c));
         let mut c = clone_inst(h);
         c.auth.remove(k);
         out.push((format!("auth[{k}] dropped"), c));
@@ -221,7 +228,9 @@ pub fn run(args: &Args) -> Report {
     let rep = par_run(n_threads(), work.len() as u64, |i, rep| {
         let (h, nf, mask) = work[i as usize];
         let mut rng = base.fork(&format!("ex{h}.{nf}"));
-        let leaves: Vec<Felt> = (0..1u32 << h).map(|_| rng.felt()).collect();
+        // odd work items use trees in which every unqueried leaf is zero
+        let zero_others = i % 2 == 1 && h <= 3;
+        let leaves: Vec<Felt> = (0..1u32 << h).map(|b| if zero_others && mask >> b & 1 == 0 { let _ = rng.felt(); Felt::ZERO } else { rng.felt() }).collect();
         let p = TreeParams { height: h, n_friendly: nf, hash };
         let tree = Tree::full(p, &leaves);
         let q: Vec<u128> = (0..1u32 << h).filter(|b| mask >> b & 1 == 1).map(|b| b as u128).collect();
@@ -286,9 +295,13 @@ pub fn run(args: &Args) -> Report {
             for _ in 0..rng.below(4) {
                 special.insert(((rng.next() as u128) << 64 | rng.next() as u128) % n, rng.felt());
             }
-            Tree::sparse(p, rng.felt(), &special)
+            // (a third of the sparse trees have all-zero default leaves: a missing sibling must not be
+            // treated as a zero node)
+            let default_leaf = if rng.chance(1, 3) { Felt::ZERO } else { rng.felt() };
+            Tree::sparse(p, default_leaf, &special)
         } else {
-            let leaves: Vec<Felt> = (0..n).map(|_| rng.felt()).collect();
+            let zero_heavy = rng.chance(1, 4);
+            let leaves: Vec<Felt> = (0..n).map(|_| if zero_heavy && rng.chance(1, 2) { Felt::ZERO } else { rng.felt() }).collect();
             Tree::full(p, &leaves)
         };
         let fam = if sparse { "random_sparse" } else { "random_full" };
